@@ -51,11 +51,10 @@ def explain(meta, model_out):
             lost_words |= ws
         elif i in bad and {'footnote', 'columns'} <= set(g['ctx']):
             ids.add('footnote-in-columns-lost-or-duplicated')
-        elif duplicated and i in bad and {'columns', 'table'} <= set(g['ctx']):
-            ids.add('table-in-columns-duplicates-rows')
-        elif i in bad and 'table' in g['ctx'] and g['kind'] == 'flow' and restarts(g['words'], proj):
-            # exactly: the first k words of one cell (once or several times), then the whole cell from its beginning
-            ids.add('table-cell-restarts-after-empty-fragment')
+        elif (i in scattered and i not in bad and proj == g['words'] and 'table' in g['ctx']
+              and g['kind'] == 'flow'):
+            # a table cell, complete and in order, with a page in between that shows none of its words
+            ids.add('table-cell-skips-a-page')
         elif (duplicated and i in bad and {'float', 'columns'} <= set(g['ctx'])
               and any(proj == g['words'][k:] + g['words'] for k in range(1, len(g['words'])))):
             # exactly: the end of a float inside a multi-column container (its continuation), then the whole float
@@ -80,17 +79,17 @@ def explain(meta, model_out):
     return sorted(ids)[0]
 
 
-def restarts(words, proj):
-    """`proj` = one or more proper non-empty prefixes of `words`, then `words` itself (words are distinct)."""
-    if not words or not proj or proj[0] != words[0]:
-        return False
-    segments = []
-    for w in proj:
-        if w == words[0]:
-            segments.append([])
-        segments[-1].append(w)
-    return (len(segments) >= 2 and segments[-1] == words
-            and all(seg == words[:len(seg)] and len(seg) < len(words) for seg in segments[:-1]))
+def scattered_groups(groups, pages):
+    """Indexes of the flow / out-of-flow groups whose words are not on consecutive pages."""
+    out = []
+    for index, g in enumerate(groups):
+        if g['kind'] not in ('flow', 'oof'):
+            continue
+        ws = set(g['words'])
+        on = [i for i, page in enumerate(pages) if ws & set(page)]
+        if on and on != list(range(on[0], on[-1] + 1)):
+            out.append(index)
+    return out
 
 
 def conserve_violation(meta, model_out):
@@ -179,6 +178,16 @@ def fit_items(page, decorations=False):
                     and child.style['height'].unit == 'px'
                     and (child.height or child.padding_top or child.border_top_width)):
                 # an unbreakable block: a childless block of definite height; its content box must fit
+                kinds.append('block')
+                items.append((frac(child.content_box_y()) + frac(child.height), state['first']))
+                state['first'] = False
+                placed[0] += 1
+                continue
+            if (isinstance(child, boxes.BlockBox) and not isinstance(child, boxes.TableCellBox) and child.children
+                    and (child.style['overflow'] in ('auto', 'scroll')
+                         or (child.style['overflow'] == 'hidden' and child.style['height'] != 'auto'))):
+                # a monolithic container (css-break-3 4.1: scrollable, or clipped with a definite height; stated here
+                # from the style, not by asking the code): one unbreakable item, its content is not looked at
                 kinds.append('block')
                 items.append((frac(child.content_box_y()) + frac(child.height), state['first']))
                 state['first'] = False
